@@ -550,6 +550,7 @@ type Contract struct {
 	// the call sites inside this function (a state invariant the function relies on); every use is listed in the trusted base.
 	AssumesPre map[string]string
 	Alt        string // non-empty: an additional contract ("func F #alt"), verified but not used by callers
+	Skolems    []string
 }
 
 type LetDef struct {
@@ -744,6 +745,15 @@ func ParseContractText(pkg, file, text string) (*ContractFile, error) {
 				cur.Locals = map[string]string{}
 			}
 			cur.Locals[fs[0]] = strings.Join(fs[1:], " ")
+		case "skolem":
+			// skolem a, b: the ghost constants a(), b() stand for arbitrary values in this contract's ensures clauses; a
+			// caller may therefore use such a clause for every value (it is assumed universally quantified at call sites)
+			if cur == nil {
+				return nil, fmt.Errorf("%s:%d: skolem outside func", file, ln)
+			}
+			for _, f := range strings.FieldsFunc(rest, func(r rune) bool { return r == ',' || r == ' ' }) {
+				cur.Skolems = append(cur.Skolems, f)
+			}
 		case "assumespre":
 			// assumespre <callee> [: reason]
 			if cur == nil {
